@@ -15,7 +15,7 @@ ID = "C15"
 RULE = ("(a) all 120 permutations of the five required columns on a fixed 2-season configuration (enumerated in every run, each "
         "combined with a rotating index / extra-column variant); (b) Hypothesis: generated configurations (calendar and thermal "
         "crops, 1-2 seasons) x generated re-presentations of the weather table: column permutation, 0-3 unrelated columns "
-        "(numeric, integer, string, datetime) at any position, re-indexing (shifted integers, dates, reversed labels, string "
+        "(numeric, integer, string, datetime, numeric with missing values, objects with None) at any position, re-indexing (shifted integers, dates, reversed labels, string "
         "labels, REPEATED labels as after concatenating yearly tables, one constant label; rows stay in date order), extra leading / trailing rows with absurd values, float32 round trip excluded. Oracle: "
         "all three daily tables and the summary bitwise equal to the run on the canonical table. One evaluation per pair. "
         "Non-trivial pair: the transformation moves at least one required column to another position; distinct = (configuration, "
@@ -44,7 +44,7 @@ def xforms(draw):
     if draw(st.integers(0, 9)) < 5:
         ops.append(dict(op="pad", before=draw(st.integers(0, 60)), after=draw(st.integers(0, 60)), value=float(draw(st.sampled_from([99.0, 1e6, 0.0])))))
     for j in range(draw(st.integers(0, 3))):
-        ops.append(dict(op="extra", kind=draw(st.sampled_from(["num", "int", "str", "date"])), pos=draw(st.integers(0, 8)), name="extra%d" % j))
+        ops.append(dict(op="extra", kind=draw(st.sampled_from(["num", "int", "str", "date", "num_nan", "obj_none"])), pos=draw(st.integers(0, 8)), name="extra%d" % j))
     if draw(st.integers(0, 9)) < 6:
         ops.append(dict(op="index", kind=draw(st.sampled_from(["shift", "date", "rev", "str", "dup", "dup", "const"])), by=draw(st.sampled_from([1, 2, 7, 30, 365, 366, 5000]))))
     if not ops:
@@ -65,7 +65,7 @@ def fixed_cases(tier):
     out = []
     extras = [None, dict(op="index", kind="rev"), dict(op="extra", kind="str", pos=0, name="junk"), dict(op="index", kind="date"),
               dict(op="index", kind="dup", by=365), dict(op="index", kind="const"),
-              dict(op="extra", kind="num", pos=2, name="junk2"), dict(op="pad", before=30, after=30, value=99.0)]
+              dict(op="extra", kind="num", pos=2, name="junk2"), dict(op="extra", kind="num_nan", pos=5, name="snow"), dict(op="pad", before=30, after=30, value=99.0)]
     for i, perm in enumerate(itertools.permutations([0, 1, 2, 3, 4])):
         ops = [dict(op="perm", order=list(perm))]
         if extras[i % len(extras)]:
